@@ -18,13 +18,18 @@ func newResponses(i *catalog.HTTPInteraction) (*Responses, Error) {
 	}
 
 	sortedResponses := make(map[responseCode][]*catalog.HTTPResponse)
+	codes := make([]responseCode, 0, len(i.Responses)) // in order of appearance
 	for idx, resp := range i.Responses {
 		rCode := responseCode(resp.Code)
+		if _, ok := sortedResponses[rCode]; !ok {
+			codes = append(codes, rCode)
+		}
 		sortedResponses[rCode] = append(sortedResponses[rCode], &i.Responses[idx])
 	}
 
 	r := make(Responses, 1)
-	for rc, respArr := range sortedResponses {
+	for _, rc := range codes {
+		respArr := sortedResponses[rc]
 		var err Error
 		var resp *ResponseObject
 
